@@ -12,6 +12,8 @@ for name in sorted(os.listdir(os.path.join(V, "seeded"))):
     mp, pp = os.path.join(d, "meta.json"), os.path.join(d, "patch.diff")
     if not (os.path.exists(mp) and os.path.exists(pp)): continue
     meta = json.load(open(mp))
+    if meta.get("rejected"):
+        print(name, "REJECTED (not a break of the library):", meta["rejected"][:80]); continue
     assert sh("git -C /repo status --porcelain -- src include").stdout.strip() == "", "/repo not clean"
     r = sh("git -C /repo apply %s" % pp)
     if r.returncode != 0:
